@@ -124,6 +124,26 @@ theorem dpkg_not_installed_not_reported (es : List Entry) (p : Pkg) (h : p ∈ i
   obtain ⟨e, ⟨he, hi⟩, rfl⟩ := h
   exact ⟨e, he, hi, rfl⟩
 
+/-- The distroless scanner on one `status.d` file whose stanzas are separated by
+    single empty lines: one package per stanza, in order, with the fields of
+    that stanza (`Source: name (version)` split, the repaired defect), whatever
+    the Status field says; the last stanza counts without a blank line after it. -/
+theorem distroless_file_exact (bs : List Block) (last : Option (List Field)) (fn : Bool)
+    (hb : ∀ b ∈ bs, b.fields ≠ [] ∧ ∀ f ∈ b.fields, f.WF)
+    (hg : ∀ b ∈ bs, b.gap = 0)
+    (hw : ∀ fs, last = some fs → fs ≠ [] ∧ ∀ f ∈ fs, f.WF)
+    (hfn : fn = false → last ≠ none) :
+    distrolessFile (docBytes 0 bs last fn) = (docHdrs bs last).map distrolessPkg := by
+  unfold distrolessFile calls
+  rw [splitLines_docBytes 0 bs last fn hb hw hfn, callsFrom_docLines 0 bs last hb hw]
+  simp only [List.replicate_zero, List.nil_append]
+  exact distrolessEvents_blocks bs last (fun b hbm => ⟨(hb b hbm).1, hg b hbm⟩) (fun fs h => (hw fs h).1)
+
+/-- The repaired defect on the shape found in distroless/cc images. -/
+example : distrolessPkg [(kPackage, asc "libgcc-s1"), (kSource, asc "gcc-10 (10.2.1-6)"),
+    (kVersion, asc "10.2.1-6"), (kArchitecture, asc "amd64")] =
+    ⟨asc "libgcc-s1", asc "10.2.1-6", asc "amd64", asc "gcc-10", asc "10.2.1-6"⟩ := by decide
+
 /-! ### the full-strength statement is false: recorded findings -/
 
 def hdrLibc (arch : Bytes) : Hdr :=
